@@ -466,9 +466,19 @@ def check_isolation(case):
     mine = secsgem.secs.functions.StreamsFunctions()
     custom = type(cls.__name__ + "Custom", (cls,), {"__doc__": cls.__doc__})
     try:
+        # look it up first (a container may cache its look-ups), then customise, then look it up again
+        if mine.function(cls._stream, cls._function) is not cls:
+            out.append(("C03|lookup-wrong-class-before-update", {"case": case}))
         mine.update(custom)
         if mine.function(cls._stream, cls._function) is not custom:
             out.append(("C03|update-not-visible-in-own-container", {"case": case}))
+        # a function number the catalogue does not have: not found before, found after update()
+        extra = type("SecsS64F%02d" % (cls._function | 1), (cls,), {"_stream": 64, "_function": cls._function | 1, "__doc__": cls.__doc__})
+        if mine.function(64, extra._function) is not None:
+            out.append(("C03|lookup-finds-uncatalogued", {"case": case}))
+        mine.update(extra)
+        if mine.function(64, extra._function) is not extra:
+            out.append(("C03|added-function-not-found-after-update", {"case": case}))
         newer = secsgem.secs.functions.StreamsFunctions()
         for label, cont in (("older", older), ("newer", newer)):
             got = cont.function(cls._stream, cls._function)
